@@ -43,6 +43,7 @@ def setup(ctx):
     ctx.require("monitor", "l3_calls", 400)
     ctx.require("monitor", "changed_cert_calls", 30)
     ctx.require("monitor", "tampered_cert_calls", 20)
+    ctx.require("monitor", "concurrent_first_contacts", 12)
     ctx.require("monitor", "table_comparisons", 400)
     ctx.require("monitor", "l0_steps", 2000)
     ctx.require("monitor", "redirect_hops_checked", 20)
@@ -488,6 +489,93 @@ def run_l3(ctx):
         world.close()
 
 
+def run_concurrent_first_contact(ctx):
+    """Calls in flight at the same time towards a host:port that is not pinned yet, the peer presenting a
+    DIFFERENT certificate on every connection: whatever the interleaving, all calls that return a response
+    saw one and the same certificate, that certificate is the pin afterwards, every other call failed with a
+    certificate-changed error, and the pin was written once."""
+    from nauyaca.client.session import GeminiClient
+    from nauyaca.security.tofu import CertificateChangedError
+
+    P = pool()
+    seq = [P["ec1"], P["ec2"], P["rsa"], P["ed"]]
+
+    def behaviour(conn):
+        line = conn.read_line(timeout=5)
+        if line is None:
+            conn.close()
+            return
+        if line.startswith(b"titan://"):
+            conn.drain(timeout=0.3)
+        conn.send(b"20 text/gemini\r\nhello\n")
+        conn.close()
+
+    with peers.ScriptedPeer(P["ec1"], behaviour, name="rotating") as peer:
+        for trial in range(ctx.pick(24, 200)):
+            base_index = len(peer.log)
+            peer.ident_for_connection = lambda i, b=base_index: seq[(i - b) % len(seq)]
+            tmp = tempfile.mkdtemp(prefix="vf-c03c-")
+            dbp = os.path.join(tmp, "tofu.db")
+            ncalls = 2 + trial % 3
+            kinds = [("get", "upload")[(trial + j) % 2 if trial % 4 else 0] for j in range(ncalls)]
+            shared_client = trial % 3 != 2
+
+            async def one(client, j, kind):
+                url = f"gemini://127.0.0.1:{peer.port}/call{j}"
+                try:
+                    if kind == "upload":
+                        r = await client.upload(url, b"payload", mime_type="text/plain")
+                    else:
+                        r = await client.get(url)
+                    return ("response", r.status)
+                except CertificateChangedError as e:
+                    return ("changed", e.old_fingerprint, e.new_fingerprint)
+                except BaseException as e:  # noqa: BLE001
+                    return ("error", type(e).__name__, str(e)[:80])
+
+            async def go():
+                mk = lambda: GeminiClient(timeout=8, trust_on_first_use=True, tofu_db_path=Path(dbp))  # noqa: E731
+                c0 = mk()
+                return await asyncio.gather(*[one(c0 if shared_client else mk(), j, k) for j, k in enumerate(kinds)])
+
+            try:
+                results = asyncio.run(go())
+                peer.wait_idle(4)
+                rows = dump(dbp)
+            finally:
+                shutil.rmtree(tmp, ignore_errors=True)
+            recs = peer.log[base_index:]
+            presented = {}
+            for r in recs:
+                rl = r.get("request_line") or b""
+                if b"/call" in rl:
+                    presented[int(rl.split(b"/call")[1][:1])] = r["cert_fp"]
+            ctx.count("monitor", "concurrent_first_contacts")
+            wit = {"level": "concurrent-first-contact", "calls": kinds, "one_client_object": shared_client, "results": [list(r) for r in results],
+                   "presented_per_connection": [r["cert_fp"][:23] for r in recs], "pins_afterwards": [(r[0], r[1], r[2][:23]) for r in rows]}
+            ok_fps = {presented.get(j) for j, r in enumerate(results) if r[0] == "response"}
+            pin = rows[0][2] if len(rows) == 1 else None
+            if len(rows) > 1:
+                ctx.violation("concurrent:several-pins", "one host:port ended up with several rows", wit)
+            elif len(ok_fps - {None}) > 1:
+                ctx.violation("concurrent:accepted-two-certificates", "calls towards one unpinned host:port returned responses although the peer presented different certificates to them", wit)
+            elif ok_fps - {None} and pin not in ok_fps:
+                ctx.violation("concurrent:pin-is-not-the-accepted-certificate", "the pin left behind is not the certificate of the call that was accepted (a later first contact overwrote it)", wit)
+            elif not any(r[0] == "response" for r in results):
+                ctx.undecided("concurrent-first-contact:no-call-succeeded")
+            else:
+                for j, r in enumerate(results):
+                    if r[0] == "response":
+                        continue
+                    if r[0] != "changed":
+                        ctx.undecided(f"concurrent-first-contact:other-error:{r[1]}")
+                ctx.count("outcome", "concurrent-first-contact:one-certificate-won")
+            ctx.case(("concurrent-first-contact", tuple(kinds), shared_client, tuple(r[0] for r in results)), True, sample=wit)
+        peer.ident_for_connection = None
+
+
 def run(ctx):
     run_l0(ctx)
     run_l3(ctx)
+    if ctx.shard == 1 or ctx.nshards == 1:
+        run_concurrent_first_contact(ctx)
